@@ -219,15 +219,22 @@ def apply_op(d, op, kind, seq, pdf, seed):
         col, mode = op[1], op[2]
         if not isframe or col not in d.columns:
             raise Inapplicable("needs the column")
+        cur = d[col].compute()  # the column as it is NOW (earlier operations may have changed values, order or introduced nulls)
+        if cur.isna().any():
+            raise Inapplicable("null keys: dask documents that nulls in the index are not supported")
+        if len(cur) == 0:
+            raise Inapplicable("no rows")
         if mode == "auto":
             return d.set_index(col)
         if mode in ("n1", "n2", "n3"):
             return d.set_index(col, npartitions=int(mode[1]))
         if mode == "sorted":
+            if not cur.is_monotonic_increasing:
+                raise Inapplicable("sorted=True on unsorted data would be a false user assertion")
             return d.set_index(col, sorted=True)
-        vals = sorted(set(pdf[col].tolist()))
+        vals = sorted(set(cur.tolist()))
         b = [vals[0]] + ([vals[len(vals) // 2]] if 0 < len(vals) // 2 < len(vals) - 1 else []) + [vals[-1]]
-        return d.set_index(col, divisions=[int(v) for v in b])
+        return d.set_index(col, divisions=b)
     if k == "parts":
         sel = op[1]
         npart = d.npartitions
@@ -338,34 +345,56 @@ def cases_of(shard, tier):
 
 
 # ---------------------------------------------------------------------------------------------- judging
-def known_class(kind, op, src):
-    """narrow input classes of recorded findings (C41.findings.json); replaces the context part of the key.
-    op = the operation of the shortest failing prefix, src = the collection it was applied to."""
+ROW_SELECTING = ("filter", "ifilter", "loc", "loc1", "loclist", "dropna", "head")
+PROJECTING = ("col", "cols", "toframe", "add2", "index", "idxser", "idxmap")
+
+
+def context(op, prev, src, cls):
+    """the third part of a finding key: the narrow input class of a recorded finding (C41.findings.json) when there is one,
+    else the preceding operation.  op = operation of the shortest failing prefix, src = the collection it was applied to."""
     try:
-        if op[0] == "rep_n" and src.known_divisions and op[1] > src.npartitions and not isinstance(src.divisions[0], str):
-            return "known-numeric-divisions-upsample"  # same defect as C44's finding of that name
-        if op[0] == "setidx" and op[2] in ("n1", "n2", "n3") and int(op[2][1]) >= 2:
-            return "explicit-npartitions"
+        if cls == "npartitions-attr":
+            if op[0] == "rep_n" and src.known_divisions and op[1] > src.npartitions and not isinstance(src.divisions[0], str):
+                return "known-numeric-divisions-upsample"  # same defect as C44's finding of that name
+            if op[0] == "setidx" and op[2] in ("n2", "n3"):
+                return "explicit-npartitions"
+        if cls == "report-differs-from-optimized" and prev is not None:
+            if op[0] in ROW_SELECTING and prev[0] in ("setidx", "resetset"):
+                return "row-selection-after-set_index"  # the filter is pushed below set_index, divisions are recomputed on other data
+            if op[0] in PROJECTING and prev[0] in ("concat0", "concat1", "concat0i", "merge", "join"):
+                return "projection-after-concat-or-merge"  # the projection removes the aligned operand, the partitioning reverts
+            if op[0] == "setidx" and op[2] in ("auto", "n1", "n2", "n3"):
+                return "quantile-divisions-on-derived-frame"  # divisions are computed twice on differently simplified expressions
     except Exception:  # noqa: BLE001
         pass
-    return None
+    return f"after-{prev[0]}" if prev is not None else "on-origin"
 
 
 def examine(e):
-    """-> ('unknown'|'ok'|'bad', info).  Raises whatever dask raises."""
+    """-> ('unknown'|'ok'|'ok-decreasing'|'bad', info).  Raises whatever dask raises."""
     div = tuple(e.divisions)
     if all(d is None for d in div):
         return "unknown", len(div) - 1
     if any(d is None for d in div):
-        return "bad", ("partly-unknown", f"divisions {div!r} mix None with values")
+        return "bad", ("untruthful", f"divisions {div!r} mix None with values")
     npart = e.npartitions
     if npart != len(div) - 1:
-        return "bad", _c4x.truth_problem(npart, div, [])
+        return "bad", ("npartitions-attr", _c4x.truth_problem(npart, div, [])[1])
     parts = list(dask.compute(*e.to_delayed()))
     # the statement does not order the divisions themselves: a decreasing vector is only wrong through a non-empty partition
     bad = _c4x.truth_problem(npart, div, parts, demand_sorted=False)
     if bad:
-        return "bad", bad
+        cls = "untruthful"
+        try:
+            odiv = tuple(e.optimize().divisions)
+            if odiv != div and not any(d is None for d in odiv) and _c4x.truth_problem(len(odiv) - 1, odiv, parts, demand_sorted=False) is None:
+                cls = "report-differs-from-optimized"
+                bad = (bad[0], bad[1] + f"; the optimised expression has divisions {odiv!r}, which do describe the partitions")
+        except Hang:
+            raise
+        except Exception:  # noqa: BLE001
+            pass
+        return "bad", (cls, f"[{bad[0]}] {bad[1]}")
     try:
         if any(b < a for a, b in zip(div, div[1:])):
             return "ok-decreasing", len(parts)
@@ -420,8 +449,7 @@ def run_case(case, ctx):
             v, inf = "raised", ex
         if v == "bad":
             opk = ops[j - 1][0] if j else origin[0]
-            sub = known_class(kind, ops[j - 1], exprs[j - 1]) if j else None
-            ctxpart = sub if sub else (f"after-{ops[j - 2][0]}" if j >= 2 else "on-origin")
+            ctxpart = context(ops[j - 1], ops[j - 2] if j >= 2 else None, exprs[j - 1], inf[0]) if j else "origin"
             ctx.case(case, nontrivial=True, outcome=("bad", opk, inf[0]))
             ctx.violation(f"{opk}:{inf[0]}:{ctxpart}", case, f"{describe(kind, seq, origin, ops[:j], ctx.seed)}: {inf[1]}")
             return
